@@ -103,7 +103,7 @@ func main() {
 			"(2) all forests of <= 2 ops over core + %d extended letters (%d extended block ops), and all 3-op forests holding at least one extended letter with every other op over the context letters (%d leaves + all %d block ops). "+
 			"Extended letters: AddUint16/24/32 and ASN.1 INTEGERs with pairwise different octets (0x0102, 0x010203, 0x01020304, +-0x0102030405060708); AddBytes of 254,255,256,65534,65535,65536 octets (1- and 2-octet length-prefix limits: the first length that does not fit must be a Builder error); "+
 			"AddASN1 with tag number 30 (0x1e, 0x7e, 0xbe), refused 0x1f / 0xff, optional readers with tag 0x9e; ReadOptionalASN1Integer into *int64 / *uint64; GeneralizedTime and UTCTime (ReadASN1UTCTime) incl. a -0330 zone; "+
-			"Builder.Unwrite (after AddBytes in the same Builder incl. pending length-prefixed children, and alone: on preceding ops' bytes or with nothing to unwrite = documented panic), SetError, AddValue (writing / failing MarshalingValue), "+
+			"Builder.Unwrite (after AddBytes in the same Builder incl. pending length-prefixed children, and alone: on preceding ops' bytes or with nothing to unwrite = documented panic), SetError, AddValue (writing / failing MarshalingValue), MarshalASN1 (int64 / a type encoding/asn1 refuses), "+
 			"a continuation panicking with BuildError (becomes the Builder's error) or with another value (re-raised unchanged); "+
 			"(3) thorough only: directed programs with AddBytes of 2^24-1 / 2^24 octets (4-octet DER length, 3-octet length-prefix limit). "+
 			"Every program: built bytes == reference encoding, Bytes/BytesOrPanic agree, documented errors/panics, then read back with %d reader variants (values, Zone offsets, exact remainder after every op); programs of <= %d ops also built with NewFixedBuilder at capacity exact, exact with a 2-byte initial buffer, and short capacities "+
